@@ -43,9 +43,14 @@ RULE = ("case = (api, naming scheme, 1-3 concurrent runs each = test kernel x "
         "os.close; distinct = (configuration, effective schedule)")
 ASSUMPTIONS = [
     "A 'PSyclone run' is modelled by one thread calling "
-    "CodedKern.rename_and_write() on its own freshly parsed kernel; the "
-    "process-global Config (kernel_output_dir, kernel_naming) is shared, as "
-    "it would have identical values in separate processes.",
+    "CodedKern.rename_and_write() on its own PSy object / CodedKern with its "
+    "own freshly parsed kernel tree and PSyIR schedule; the process-global "
+    "Config (kernel_output_dir, kernel_naming) is shared, as it would have "
+    "identical values in separate processes.",
+    "The read-only result of psyclone.parse.algorithm.parse() is cached per "
+    "process and shared by runs of the same algorithm file (as kernels of "
+    "one invoke share it in a real run); the second sampled batch of the "
+    "thorough tier, replay with C29_FRESH_PARSE=1, shares nothing.",
     "Interleavings are explored at file-operation granularity (os.open, "
     "os.write, os.close, open, read); pre-emption inside one os.write and "
     "short writes are outside the explored space.",
@@ -123,8 +128,16 @@ def apply_variant(kern, variant):
     kern.modified = True
 
 
+_PARSED = {}
+FRESH_PARSE = [os.environ.get("C29_FRESH_PARSE", "") == "1"]
+
+
 def build_kernel(api, spec):
-    """Freshly parse the algorithm + kernel and transform the kernel."""
+    """Create this run's own PSy object and CodedKern and transform the
+    kernel (the kernel's fparser2 tree and PSyIR schedule are always created
+    afresh for each run).  The result of psyclone.parse.algorithm.parse()
+    (algorithm + kernel-metadata parse, only ever read) is cached per process
+    unless FRESH_PARSE is set."""
     # pylint: disable=import-outside-toplevel
     from psyclone.configuration import Config
     from psyclone.parse.algorithm import parse
@@ -136,7 +149,10 @@ def build_kernel(api, spec):
     if spec["v"] not in VARIANTS[api]:
         raise HarnessError(f"variant {spec['v']} not valid for {api}")
     Config.get().api = api
-    _, info = parse(os.path.join(_base_path(), DIRS[api], alg), api=api)
+    info = None if FRESH_PARSE[0] else _PARSED.get((api, alg))
+    if info is None:
+        _, info = parse(os.path.join(_base_path(), DIRS[api], alg), api=api)
+        _PARSED[(api, alg)] = info
     psy = PSyFactory(api, distributed_memory=False).create(info)
     kern = psy.invokes.invoke_list[inv].schedule.coded_kernels()[kidx]
     if not kern.module_name.lower() == base + "_mod":
@@ -618,6 +634,8 @@ def enum_configs(tier):
         for scheme in ("multiple", "single"):
             for pair in (("acc", "acc"), ("acc", "edit1")):
                 for pre, foreign in envs:
+                    if tier == "quick" and api == "lfric" and foreign:
+                        continue    # the largest spaces: thorough only
                     cfgs.append(({"api": api, "scheme": scheme,
                                   "runs": [spec(kern, pair[0]),
                                            spec(kern, pair[1])],
@@ -701,7 +719,7 @@ def multiprocess_smoke(ctx, reps):
             os.mkdir(kdir)
             cmd = [sys.executable, "-c",
                    "import sys; from psyclone.generator import main; "
-                   "main(sys.argv[1:])", "-api", "gocean1.0", "-s", script,
+                   "main(sys.argv[1:])", "-api", "gocean", "-s", script,
                    "-okern", kdir, "--kernel-renaming", "multiple"]
             procs = []
             for i in range(3):
@@ -772,11 +790,18 @@ def run(ctx):
         case, schedule = drawn
         check_case(ctx, case, schedule, "sampled", ctx.fail)
 
+    # Schedules are tiny and failures are reported with their complete
+    # effective schedule, so the quick tier does not spend time shrinking.
     ctx.hyp(prop, sampled_cases([3, 3, 3, 2]),
-            max_examples=ctx.scale(480, 5000), salt=1)
+            max_examples=ctx.scale(400, 5000), salt=1, shrink=not ctx.quick)
     if not ctx.quick:
-        ctx.hyp(prop, sampled_cases([1, 2, 2, 3]),
-                max_examples=ctx.scale(0, 2000), salt=2)
+        # second batch: nothing shared between the runs (no parse cache)
+        FRESH_PARSE[0] = True
+        try:
+            ctx.hyp(prop, sampled_cases([1, 2, 2, 3]),
+                    max_examples=ctx.scale(0, 2000), salt=2)
+        finally:
+            FRESH_PARSE[0] = False
         reps = len(range(ctx.shard, 50, ctx.nshards))
         try:
             multiprocess_smoke(ctx, reps)
